@@ -3,7 +3,8 @@
 Require Extraction.
 Require Import ExtrOcamlBasic.
 Require Import Model.Base Model.Ir Model.VarUse Model.Taint Model.SideEffect.
-Require Model.BranchRegion Spec.CtlDep Spec.CtlRegion.
+Require Model.BranchRegion Spec.CtlDep Spec.CtlRegion Model.Justify.
 Separate Extraction Base.base_roots Base.outcome Ir.cfg
   Taint.run_taint_analysis SideEffect.exported_sinks BranchRegion.branches_of
-  CtlDep.ctl_closed_b CtlRegion.region_covers_b CtlRegion.self_closed_b CtlRegion.indices_distinct_b CtlRegion.all_reach_exit_b.
+  CtlDep.ctl_closed_b CtlRegion.region_covers_b CtlRegion.self_closed_b CtlRegion.indices_distinct_b CtlRegion.all_reach_exit_b
+  Justify.vjust_cfg Justify.ldefs_unique_cfg.
